@@ -1,23 +1,28 @@
 """C13 — waste handling never hangs, stays bounded and accounts for every item.
 
 The real Lysosome (and AutophagyDaemon as one more ingest source) is driven through generated
-histories while rv.c13_rig observes it: an ingest recorder on the instance gives every Waste a unique
-id, every digester is wrapped (harness stubs that return / return {} / raise per item for the four
+histories while rv.c13_rig observes it: an ingest recorder on the instance gives every INGESTION a unique
+id (items are keyed by ingestion order and grouped by object identity, never by content: the workload also
+ingests wastes that compare equal to queued ones - distinct twins, the same failure / secret reported again
+within one tick of the frozen clock - and the very same object again), every digester is wrapped (harness stubs that return / return {} / raise per item for the four
 non-toxic types, the shipped toxic digester with an on_toxic logger), a log handler records what the
 module reports, a virtual clock drives retention. After every call the accounting model is audited:
 each item is exactly one of queued / digested(counted) / reported digestion error / emergency-dropped /
 expired; queue length <= max_queue_size; counters; no sensitive marker in the recycling bin; toxic
-callback exactly once per processed sensitive item. "Would hang" is decided at the lock in zero time
-(rv.locks.DetectingLock on single-thread histories; rv.sched deadlock detection on 2-3-thread
-workloads explored with a pb(1) sweep + random/PCT schedules); a free-running 4-thread stress adds
-bytecode-level preemption. An icontract invariant keeps len(_queue) <= max_queue_size on every
+callback exactly once per processed sensitive item. "Would hang" is decided at the lock in zero time:
+EVERY Lock/RLock reachable from the instance (instance attributes whatever their name, helper objects, class
+attributes, module globals; re-scanned at every call) is wrapped - DetectingLock on single-thread histories;
+rv.sched.SchedLock on 2-3-thread workloads explored with a pb(1) sweep + random/PCT schedules (a lock-order
+deadlock is "no runnable thread"); a wait-for-graph lock in the free-running 4-thread stress, which adds
+bytecode-level preemption. A schedule that still ends in the wall-clock watchdog aborts its workload (INCONCLUSIVE). An icontract invariant keeps len(_queue) <= max_queue_size on every
 public-method boundary.
 """
 import sys
 import threading
+import time
 
 from rv import c13_rig, core, sched
-from rv.c13_rig import INGEST_KINDS, FastDetectingLock, Rig
+from rv.c13_rig import INGEST_KINDS, FastDetectingLock, GraphDetectingLock, LockGraph, Rig, SchedSemaphore, SoloSemaphore, is_semaphore
 from rv.locks import WouldHang
 from rv.vclock import VClock, patched
 
@@ -29,7 +34,8 @@ TECHNIQUE = ("runtime monitoring: ingest recorder + wrapped digesters (fault-inj
 RULE = ("configs: max_queue_size 2..8, auto_digest_threshold 1..8 (<=, == and > max), retention 1 h, stub or shipped digesters, 0-4 prefilled items; "
         "histories over {ingest x5 waste types (digester returns dict / {} / raises), ingest_error, ingest_sensitive, digest(None|0|1|2), autophagy, "
         "advance clock 40 min, daemon check_and_prune}: depth <= 4 (quick, 1/3 sample of depth 4) / <= 5 (thorough, 1/4 sample of depth 5) swept on 12 configs, "
-        "depth 7-10 (some up to 30) sampled; 2-3 threads x 1-3 ops under pb(1) + random/PCT schedules; 4-thread free-running stress. "
+        "depth 7-10 (some up to 30) sampled (30% of them with equal-waste / same-object ingests mixed in); a second sweep to depth 4 (quick) / 5 (thorough) on 3 configs over "
+        "{ingest an equal-but-distinct twin of the last / second-last waste, ingest the same object again, ingest, ingest_sensitive of a repeated secret, digest(1), digest(), autophagy}; 2-3 threads x 1-3 ops under pb(1) + random/PCT schedules; 4-thread free-running stress. "
         "non-trivial = the history reaches the auto-digest threshold or capacity (schedules: additionally >= 1 context switch while another thread "
         "is inside a Lysosome method); distinct = trace of (op, digestion paths/outcomes) resp. (thread, function, line) trace hash")
 ASSUMPTIONS = ["digesters / on_toxic raise only Exception subclasses and do not call back into the lysosome",
@@ -38,7 +44,11 @@ ASSUMPTIONS = ["digesters / on_toxic raise only Exception subclasses and do not 
                "a digester failure in the emergency digest makes the item 'emergency-dropped'; a successful emergency digestion must be counted in total_digested",
                "sensitive item = TOXIC_BYPRODUCT waste (via ingest or ingest_sensitive); exactly one callback once processed, zero while queued / if expired",
                "preemption at statement starts of Lysosome methods and at lock operations; bytecode-level preemption only in the free-running stress",
-               "digest(0) is treated by the code as digest(None); not judged"]
+               "digest(0) is treated by the code as digest(None); not judged",
+               "an 'ingested item' is one call of Lysosome.ingest: the same Waste object ingested k times is k items (occurrences indistinguishable, judged by count: "
+               "queued occurrences + digester invocations + expired == k); wastes that compare equal but are distinct objects are distinct items",
+               "locks are threading.Lock/RLock instances reachable from the instance, its operon_ai helper objects, its classes or the lysosome module; a hang inside any "
+               "other blocking primitive is only seen by the wall-clock watchdog (INCONCLUSIVE, never a verdict)"]
 
 # ---- operation alphabet -----------------------------------------------------------------
 SWEEP_OPS = [("ingest", 1, "d"), ("ingest", 2, "r"), ("ingest", 0, "e"), ("ingest", 4, "d"), ("ingest_sensitive", "d"), ("ingest_error", "d"),
@@ -48,8 +58,24 @@ SWEEP_CFG = [(2, 1, 0, "stub"), (2, 2, 0, "stub"), (2, 3, 0, "stub"), (3, 2, 0, 
              (4, 2, 0, "stub"), (4, 3, 1, "shipped"), (4, 4, 2, "stub"), (4, 8, 2, "stub"), (5, 3, 1, "stub"), (8, 6, 4, "stub")]
 PREFILL = [("ingest", 1, "d"), ("ingest", 2, "r"), ("ingest", 4, "d"), ("ingest", 0, "e")]
 NOPS = len(SWEEP_OPS)
+# second sweep: wastes that compare EQUAL (a distinct twin of an earlier waste; the same failure / secret reported again within
+# one tick of the frozen clock) and the SAME object ingested again, against partial digests. (kind, which earlier waste, digester mode)
+DUP_OPS = [("ingest_twin", 0, "d"), ("ingest_same", 0, "d"), ("ingest_twin", 1, "r"), ("ingest", 1, "d"), ("ingest_sensitive_rep", "d"),
+           ("digest", 1), ("digest", None), ("autophagy",)]
+DUP_CFG = [(4, 8, 1, "stub"), (8, 4, 1, "stub"), (3, 3, 2, "shipped")]
+DUP_DEPTH = {"quick": 4, "thorough": 5}
+NDUP = len(DUP_OPS)
 SCHED_EVERY = {"quick": 601, "thorough": 901}      # coprime with the shard counts, so these heavier cases spread over all shards
 STRESS_EVERY = {"quick": 9001, "thorough": 40001}
+
+
+def solo_lock(raw, name):
+    """single-thread histories: a failed acquire by the only thread is a hang, decided at the lock"""
+    return SoloSemaphore(raw, name) if is_semaphore(raw) else FastDetectingLock(raw, name)
+
+
+def sched_lock(raw, name):
+    return SchedSemaphore(raw, name) if is_semaphore(raw) else sched.SchedLock(raw, name)
 
 
 class InvariantBroken(BaseException):
@@ -87,17 +113,23 @@ def sweep_total(depth):
     return sum(NOPS ** d for d in range(1, depth + 1))
 
 
-def decode(idx, depth):
+def decode(idx, depth, ops=None):
+    ops = SWEEP_OPS if ops is None else ops
+    nops = len(ops)
     for d in range(1, depth + 1):
-        k = NOPS ** d
+        k = nops ** d
         if idx < k:
             out = []
             for _ in range(d):
-                idx, r = divmod(idx, NOPS)
-                out.append(SWEEP_OPS[r])
+                idx, r = divmod(idx, nops)
+                out.append(ops[r])
             return out
         idx -= k
     raise IndexError
+
+
+def dup_total(tier):
+    return sum(NDUP ** d for d in range(1, DUP_DEPTH[tier] + 1))
 
 
 def tier_params(tier):
@@ -116,7 +148,7 @@ def sweep_layout(tier):
 
 def plan(tier):
     tp, full, deep = sweep_layout(tier)
-    nsweep = len(SWEEP_CFG) * (full + deep)
+    nsweep = len(SWEEP_CFG) * (full + deep) + len(DUP_CFG) * dup_total(tier)
     q = tier == "quick"
     return {"cases": nsweep + tp["random"], "shards": 8 if q else 14, "min_nontrivial": 2000,
             "timeout": 600 if q else 2400,
@@ -126,7 +158,11 @@ def plan(tier):
                         "auto_digest_failures_judged": 200, "items_expired": 300, "toxic_callbacks": 2000, "sensitive_items_judged": 10000,
                         "bin_scans": 50000, "digest_results_judged": 5000, "calls:prune": 1000, "lock_acquisitions": 50000,
                         "invariant_evaluations": 50000, "schedules": 1000, "yield_points": 50000, "schedules_with_switch_inside": 500,
-                        "sched_lock_acquisitions": 5000, "stress_runs": 1, "instrumented_code_objects": 10}}
+                        "sched_lock_acquisitions": 5000, "stress_runs": 1, "instrumented_code_objects": 10,
+                        "dup_sweep_histories": 2000, "calls:ingest_twin": 3000, "calls:ingest_same": 1500, "calls:ingest_sensitive_rep": 1000,
+                        "calls:ingest_error_rep": 500, "same_object_reingested": 1500, "reingested_groups_judged": 5000,
+                        "digester_calls_on_reingested_object": 1500, "partial_digests_splitting_equal_wastes": 200,
+                        "ingest_digests_splitting_equal_wastes": 1000, "stress_lock_acquisitions": 500, "max:locks_wrapped_on_one_instance": 1}}
 
 
 # ---- single-thread histories ---------------------------------------------------------------
@@ -162,8 +198,9 @@ def drive(ctx, n, cfg, prefill, seq, sample=False):
     clock = VClock()
     witness = {"config": cfg, "prefill": [list(o) for o in prefill], "sequence": [list(o) for o in seq], "trace": None}
     with patched(clock, lmod):
-        rig = Rig(cfg, clock, lambda l: FastDetectingLock(l, "Lysosome._lock"), cls=monitored_class())
+        rig = Rig(cfg, clock, solo_lock, cls=monitored_class())
         witness["trace"] = rig.trace
+        witness["locks"] = [l.name for l in rig.locks]
         c13_rig._ACTIVE_RIG = rig
         fp = []
         nontrivial = False
@@ -212,8 +249,10 @@ def drive(ctx, n, cfg, prefill, seq, sample=False):
                 ctx.nontrivial((cfg["max"], cfg["th"], cfg["mode"], tuple(fp)))
         finally:
             c13_rig._ACTIVE_RIG = None
-            ctx.count("lock_acquisitions", rig.lock.acquisitions)
-            ctx.count("reentrant_lock_acquisitions", rig.lock.reentrant_acquisitions)
+            rig.close()
+            ctx.count("lock_acquisitions", rig.lock_acquisitions())
+            ctx.count("reentrant_lock_acquisitions", sum(l.reentrant_acquisitions for l in rig.locks))
+            ctx.maxc("locks_wrapped_on_one_instance", len(rig.locks))
             ctx.counters["invariant_evaluations"] = _INV["n"]
             harvest(ctx, rig)
     if sample:
@@ -223,6 +262,10 @@ def drive(ctx, n, cfg, prefill, seq, sample=False):
 RANDOM_OPS = SWEEP_OPS + [("digest", 0), ("ingest", 3, "r"), ("ingest", 3, "d"), ("ingest_sensitive", "r"), ("ingest", 4, "r"),
                           ("ingest", 1, "r"), ("ingest", 0, "d"), ("prune", "r"), ("ingest_error", "r"), ("advance", 2400.0)]
 RANDOM_W = [6, 5, 4, 3, 4, 3, 3, 3, 2, 3, 3, 2, 1, 2, 2, 2, 2, 3, 2, 1, 2, 1]
+DUP_RANDOM_OPS = [("ingest_twin", 0, "d"), ("ingest_twin", 1, "d"), ("ingest_twin", 2, "r"), ("ingest_twin", 0, "e"), ("ingest_same", 0, "d"), ("ingest_same", 1, "r"),
+                  ("ingest_same", 3, "d"), ("ingest_error_rep", "d"), ("ingest_error_rep", "r"), ("ingest_sensitive_rep", "d"), ("ingest_sensitive_rep", "r")]
+RANDOM_OPS_D = RANDOM_OPS + DUP_RANDOM_OPS
+RANDOM_W_D = RANDOM_W + [6, 4, 3, 2, 6, 3, 2, 4, 2, 4, 2]
 
 
 def random_history(rng):
@@ -231,7 +274,10 @@ def random_history(rng):
     th = max(1, min(8, th))
     cfg = {"max": mx, "th": th, "ret_h": 1.0, "mode": "stub" if rng.random() < 0.75 else "shipped"}
     L = rng.randint(7, 10) if rng.random() < 0.8 else rng.randint(11, 30)
-    seq = rng.choices(RANDOM_OPS, weights=RANDOM_W, k=L)
+    if rng.random() < 0.3:      # histories in which equal wastes / re-ingested objects are frequent
+        seq = rng.choices(RANDOM_OPS_D, weights=RANDOM_W_D, k=L)
+    else:
+        seq = rng.choices(RANDOM_OPS, weights=RANDOM_W, k=L)
     return cfg, seq
 
 
@@ -250,6 +296,14 @@ def run_case(ctx, n):
         cfg = {"max": mx, "th": th, "ret_h": 1.0, "mode": mode}
         ctx.count("sweep_histories")
         return drive(ctx, n, cfg, PREFILL[:pre], seq, sample=(n % 50000 == 77))
+    n2 = n - nsweep
+    ndup = dup_total(ctx.tier)
+    if n2 < len(DUP_CFG) * ndup:
+        ci, j = divmod(n2, ndup)
+        mx, th, pre, mode = DUP_CFG[ci]
+        ctx.count("dup_sweep_histories")
+        return drive(ctx, n, {"max": mx, "th": th, "ret_h": 1.0, "mode": mode}, PREFILL[:pre], decode(j, DUP_DEPTH[ctx.tier], DUP_OPS), sample=(n2 % 5000 == 77))
+    nsweep += len(DUP_CFG) * ndup
     m = n - nsweep
     rng = ctx.rng(n)
     if m % STRESS_EVERY[ctx.tier] == 11:
@@ -265,6 +319,8 @@ def run_case(ctx, n):
 THREAD_OPS = [("ingest", 1, "d"), ("ingest", 2, "r"), ("ingest", 0, "e"), ("ingest", 4, "d"), ("ingest_sensitive", "d"), ("ingest_error", "d"),
               ("digest", None), ("digest", 1), ("digest", 2), ("autophagy",), ("prune", "d"), ("ingest", 3, "r"), ("ingest_sensitive", "r")]
 THREAD_W = [5, 4, 3, 2, 3, 2, 5, 4, 2, 2, 1, 1, 1]
+THREAD_OPS_D = THREAD_OPS + [("ingest_twin", 0, "d"), ("ingest_same", 0, "d"), ("ingest_twin", 1, "r"), ("ingest_same", 1, "d"), ("ingest_sensitive_rep", "d"), ("ingest_error_rep", "d")]
+THREAD_W_D = THREAD_W + [4, 4, 2, 2, 3, 3]
 
 
 def gen_threads(rng):
@@ -275,7 +331,8 @@ def gen_threads(rng):
     npre = rng.randint(0, max(0, min(mx, th - 1, 4)))
     prefill = [rng.choice(THREAD_OPS[:6]) for _ in range(npre)]
     nthreads = 2 if rng.random() < 0.85 else 3
-    threads = [[rng.choices(THREAD_OPS, weights=THREAD_W, k=1)[0] for _ in range(rng.randint(1, 3))] for _ in range(nthreads)]
+    dup = rng.random() < 0.3
+    threads = [[rng.choices(THREAD_OPS_D if dup else THREAD_OPS, weights=THREAD_W_D if dup else THREAD_W, k=1)[0] for _ in range(rng.randint(1, 3))] for _ in range(nthreads)]
     if kind == "digest_vs_digest":
         threads = [[rng.choice([("digest", None), ("digest", 1), ("digest", 2)])], [rng.choice([("digest", None), ("digest", 1)])]] + threads[2:]
         if th > 2:
@@ -302,7 +359,7 @@ def run_schedule(ctx, desc, policy, label, order):
     clock = VClock()
     wit = dict(desc, thread_order=list(order), policy=label, trace=None)
     with patched(clock, lmod):
-        rig = Rig(cfg, clock, lambda l: FastDetectingLock(l, "Lysosome._lock"))
+        rig = Rig(cfg, clock, solo_lock)
         wit["trace"] = rig.trace
         c13_rig._ACTIVE_RIG = rig
         try:
@@ -316,7 +373,8 @@ def run_schedule(ctx, desc, policy, label, order):
             rig.audit()
             if flush(ctx, rig, wit):
                 return None, 0
-            lock = rig.lock = rig.lys._lock = sched.SchedLock(rig.inner_lock, "Lysosome._lock")
+            rig.rewrap(sched_lock)          # EVERY lock of the instance cooperates with the scheduler, whatever it is called
+            wit["locks"] = [l.name for l in rig.locks]
             rig.threaded = True
             running = {}
             info = {"last0": 0, "over": None}
@@ -326,8 +384,8 @@ def run_schedule(ctx, desc, policy, label, order):
             def hook(sc, me, fn, line):
                 if me == 0:
                     info["last0"] = sc.step
-                if lock.depth == 0 and len(lys._queue) > mx and info["over"] is None:
-                    info["over"] = "queue holds %d items (max_queue_size=%d) at %s:%d while the lock is free" % (len(lys._queue), mx, fn, line)
+                if len(lys._queue) > mx and info["over"] is None and not rig.any_locked():
+                    info["over"] = "queue holds %d items (max_queue_size=%d) at %s:%d while no lock is held" % (len(lys._queue), mx, fn, line)
 
             def mk(i, ops):
                 def run():
@@ -342,7 +400,7 @@ def run_schedule(ctx, desc, policy, label, order):
             sc.run([mk(i, ops) for i, ops in enumerate(threads)])
             ctx.count("schedules")
             ctx.count("yield_points", sc.step)
-            ctx.count("sched_lock_acquisitions", lock.acquisitions)
+            ctx.count("sched_lock_acquisitions", rig.lock_acquisitions())
             ctx.maxc("preemptions_in_one_schedule", sc.preemptions)
             wit["choices"] = sc.choices[:500]
             if sc.stuck:
@@ -352,7 +410,9 @@ def run_schedule(ctx, desc, policy, label, order):
                 ctx.count("deadlocks_observed")
                 culprit = [i for i in range(len(threads)) if ("thread %d re-acquires" % i) in sc.deadlock]
                 op = running.get(culprit[0]) if culprit else None
-                mech = "ingest-auto-digest-self-deadlock" if (op is not None and op[0] in INGEST_KINDS) else "deadlock"
+                waited = set(l.name for l in sc.blocked.values())
+                mech = ("ingest-auto-digest-self-deadlock" if (op is not None and op[0] in INGEST_KINDS) else
+                        "lock-order-deadlock" if (not culprit and len(waited) > 1) else "deadlock")
                 ctx.violation(mech, "deadlock observed (no runnable thread / self re-acquisition): %s; running ops %s" % (
                     sc.deadlock, {i: list(o) for i, o in running.items()}), wit)
                 return sc, info["last0"]
@@ -371,6 +431,7 @@ def run_schedule(ctx, desc, policy, label, order):
             return sc, info["last0"]
         finally:
             c13_rig._ACTIVE_RIG = None
+            rig.close()
             harvest(ctx, rig)
 
 
@@ -392,7 +453,9 @@ def sched_case(ctx, n, rng):
         if len(combos) > cap:
             combos = rng.sample(combos, cap)
         for (s, t) in combos:
-            run_schedule(ctx, desc, sched.PreemptionPolicy({s: t}), "pb(1)@%d->%d" % (s, t), order)
+            r, _ = run_schedule(ctx, desc, sched.PreemptionPolicy({s: t}), "pb(1)@%d->%d" % (s, t), order)
+            if r is not None and r.stuck:       # a thread sits in a primitive the scheduler does not see: no verdict, and every
+                return                          # further schedule of this workload would cost another watchdog period
         ctx.count("pb1_schedules", len(combos))
     order = orders[0]
     for i in range(120 if not thorough else 400):
@@ -401,7 +464,9 @@ def sched_case(ctx, n, rng):
             pol, lab = sched.PCTPolicy(rng, nt, d=rng.choice([1, 2, 3]), horizon=horizon + 5), "pct"
         else:
             pol, lab = sched.RandomPolicy(rng, p), "random(%.1f)" % p
-        run_schedule(ctx, desc, pol, lab, order)
+        r, _ = run_schedule(ctx, desc, pol, lab, order)
+        if r is not None and r.stuck:
+            return
     if n % 7 == 0:
         ctx.sample({"thread_workload": desc, "baseline_yield_points": horizon})
 
@@ -418,7 +483,9 @@ def stress_case(ctx, n, rng):
     wit = {"stress": True, "config": cfg, "threads": nthreads, "ops_per_thread": nops}
     try:
         with patched(clock, lmod):
-            rig = Rig(cfg, clock, lambda l: FastDetectingLock(l, "Lysosome._lock"), threaded=True)
+            graph = LockGraph()
+            # a Semaphore has no owner: no sound wait-for edge, it stays unwrapped here (a hang behind it ends in the join deadline)
+            rig = Rig(cfg, clock, lambda l, name: None if is_semaphore(l) else GraphDetectingLock(l, name, graph), threaded=True)
             c13_rig._ACTIVE_RIG = rig
             hung = []
             stop = threading.Event()
@@ -429,7 +496,7 @@ def stress_case(ctx, n, rng):
                     for _ in range(nops):
                         if stop.is_set():
                             return
-                        rig.apply(r.choices(THREAD_OPS, weights=THREAD_W, k=1)[0])
+                        rig.apply(r.choices(THREAD_OPS_D, weights=THREAD_W_D, k=1)[0])
                 except WouldHang as e:
                     hung.append((i, e))
                     stop.set()
@@ -440,8 +507,9 @@ def stress_case(ctx, n, rng):
             ths = [threading.Thread(target=worker, args=(i,), daemon=True) for i in range(nthreads)]
             for t in ths:
                 t.start()
+            deadline = time.monotonic() + 150
             for t in ths:
-                t.join(300)
+                t.join(max(0.1, deadline - time.monotonic()))
             ctx.count("stress_runs")
             try:
                 if any(t.is_alive() for t in ths):
@@ -450,14 +518,22 @@ def stress_case(ctx, n, rng):
                 if hung:
                     ctx.count("would_hang_observed")
                     i, e = hung[0]
-                    ctx.violation("ingest-auto-digest-self-deadlock" if " ingest" in " ".join(e.first_stack) else "self-deadlock:stress",
-                                  "free-running stress: a call can never return: %s re-acquired at %s while held since %s" % (e.lock_name, e.second_stack[-3:], e.first_stack[-2:]), wit)
+                    cyc = getattr(e, "cycle", None)
+                    if cyc and len(cyc) > 1:
+                        ctx.count("deadlocks_observed")
+                        ctx.violation("lock-order-deadlock", "free-running stress: %d threads wait for each other's locks and none can ever proceed (%s); this thread at %s, the lock it waits for held since %s" % (
+                            len(cyc), e.lock_name, e.second_stack[-3:], (e.first_stack or [])[-2:]), wit)
+                        return
+                    ctx.violation("ingest-auto-digest-self-deadlock" if " ingest" in " ".join(e.first_stack or []) else "self-deadlock:stress",
+                                  "free-running stress: a call can never return: %s re-acquired at %s while held since %s" % (e.lock_name, e.second_stack[-3:], (e.first_stack or [])[-2:]), wit)
                     return
                 ctx.count("stress_operations", nthreads * nops)
                 rig.audit()
                 flush(ctx, rig, wit)
             finally:
                 c13_rig._ACTIVE_RIG = None
+                rig.close()
+                ctx.count("stress_lock_acquisitions", rig.lock_acquisitions())
                 harvest(ctx, rig)
     finally:
         sys.setswitchinterval(old)
